@@ -1,6 +1,8 @@
 import Gimli.Lemmas.Index
 import Gimli.Lemmas.Aranges
 import Gimli.Lemmas.Package
+import Gimli.Lemmas.Names
+import Gimli.Lemmas.Pub
 import Gimli.Model.Loader
 /-!
 # C17 — Accelerated lookups and section plumbing agree with exhaustive scans
@@ -166,6 +168,69 @@ theorem aranges_entries_exact (e : Endian) (addressSize : Nat)
   entries_tuples e addressSize has tail htail fuel ts
     (fun t ht => by rw [pow256]; exact hb t ht) hf
 
+/-! ## `.debug_names` -/
+
+open Gimli.Names in
+/-- **Layout arithmetic of `NameIndex::new`**: after the header come, in this order, the CU list,
+the local TU list, the foreign TU list (8 bytes per signature whatever the format), the bucket
+array, the hash array (present only when `bucket_count ≠ 0`), the string-offset array, the
+entry-offset array, the abbreviation table (`abbrev_table_size` bytes) and the entry pool. -/
+theorem names_layout (h : Header) (ix : Names.Index) (hn : Names.Index.new h = .ok ix) :
+    ∃ abbrevTable,
+      h.content = ix.cuList ++ ix.localTuList ++ ix.foreignTuList ++ ix.bucketData ++
+        ix.hashTableData ++ ix.nameTableData ++ ix.entryOffsetData ++ abbrevTable ++ ix.entryPool ∧
+      ix.cuList.length = h.cuCount * h.format.wordSize ∧
+      ix.localTuList.length = h.localTuCount * h.format.wordSize ∧
+      ix.foreignTuList.length = h.foreignTuCount * 8 ∧
+      ix.bucketData.length = h.bucketCount * 4 ∧
+      ix.hashTableData.length = (if h.bucketCount = 0 then 0 else h.nameCount * 4) ∧
+      ix.nameTableData.length = h.nameCount * h.format.wordSize ∧
+      ix.entryOffsetData.length = h.nameCount * h.format.wordSize ∧
+      abbrevTable.length = h.abbrevTableSize ∧
+      parseAbbrevs (abbrevTable.length + 1) abbrevTable = .ok ix.abbrevs ∧
+      ix.format = h.format ∧ ix.bucketCount = h.bucketCount ∧ ix.nameCount = h.nameCount ∧
+      ix.cuCount = h.cuCount ∧ ix.localTuCount = h.localTuCount ∧ ix.foreignTuCount = h.foreignTuCount :=
+  new_layout h ix hn
+
+open Gimli.Names in
+/-- **The bucket iterator returns exactly the names in the bucket, and stops by the modulo
+rule.**  For every well-formed hash table — `groups[b]` = the hashes (all `≡ b mod
+bucket_count`) of the names of bucket `b` in name-table order, the hash array their
+concatenation, the bucket array the 1-based index of each non-empty group's first name and 0 for
+an empty group (`EncodesTable`) — and every bucket `b`: `find_by_bucket(b)` is `None` iff no
+name of the whole table hashes into `b`, and otherwise, drained, yields exactly the pairs
+`(index, hash)` an exhaustive scan of the whole hash array finds with `hash % bucket_count = b`,
+in order. -/
+theorem bucket_iter_exact (e : Endian) (bc : Nat) (groups : List (List Nat)) (ix : Names.Index)
+    (hwf : WellFormed bc groups) (henc : EncodesTable e groups ix) (b : Nat) (hb : b < bc) :
+    ix.bucket e b =
+      .ok (if scanBucket bc b groups.flatten = [] then none
+           else some ((scanBucket bc b groups.flatten).map .item)) :=
+  bucket_scan e bc groups ix hwf henc b hb
+
+open Gimli.Names in
+/-- **`find_by_hash` returns exactly the names with that hash**: for every well-formed hash
+table with at least one bucket and every 32-bit hash value (present or absent, colliding with
+other names of its bucket or not), draining the hash iterator yields the indexes an exhaustive
+scan of the whole hash array finds with that hash, in order. -/
+theorem hash_iter_exact (e : Endian) (bc : Nat) (groups : List (List Nat)) (ix : Names.Index)
+    (hwf : WellFormed bc groups) (henc : EncodesTable e groups ix) (hbc : 0 < bc) (hash : Nat) :
+    ix.findByHash e hash = .ok ((scanHash hash groups.flatten).map .item) :=
+  findByHash_scan e bc groups ix hwf henc hbc hash
+
+/-! ## `.debug_pubnames` / `.debug_pubtypes` -/
+
+open Gimli.Pub in
+/-- **The public-name tables return exactly the entries present.**  For every list of
+well-formed sets (either format per set; non-zero DIE offsets; NUL-free names; any number of
+entries, including none), draining `LookupEntryIter` over their encoding (header, entries,
+zero-offset terminator, set after set) yields the exhaustive scan: every entry of every set, in
+order, each with the unit offset of its own set. -/
+theorem pub_entries_exact (e : Endian) (sets : List PubSet) (hv : AllValid e sets) (fuel : Nat)
+    (hf : totalEntries sets < fuel) :
+    items e fuel (start (encSets e sets)) = scanSets e sets :=
+  items_sets e sets hv fuel hf
+
 /-! ## package units, indexed tables -/
 
 /-- **A unit fetched from a package equals the unit in its standalone object.**  Let the index
@@ -239,5 +304,22 @@ example : Aranges.scanTuples 4 [(0x1000, 0x10), (0, 0), (0xffffffff, 5), (0xffff
 
 example : Index.dwpRange [1, 2, 3, 4, 5] 1 3 = .ok [2, 3, 4] := by decide
 example : Indexed.getStrOffset .little .dwarf32 [9, 9, 1, 0, 0, 0, 2, 0, 0, 0] 2 1 = .ok 2 := by decide
+
+example : Names.WellFormed 2 [[4, 6, 4], [7]] :=
+  ⟨rfl, by
+    intro j hj h hh
+    match j, hj, hh with
+    | 0, _, hh => simp at hh; rcases hh with rfl | rfl | rfl <;> decide
+    | 1, _, hh => simp at hh; subst hh; decide
+    | j + 2, hj, _ => simp at hj; omega, by decide⟩
+example : Names.scanBucket 2 0 [4, 6, 4, 7] = [(0, 4), (1, 6), (2, 4)] ∧
+    Names.scanHash 4 [4, 6, 4, 7] = [0, 2] ∧ Names.bucketArray [[4, 6, 4], [7]] 0 = [1, 4] := by decide
+
+example : Pub.AllValid .little [⟨.dwarf32, 0x10, 0x99, [(0x20, [97, 98]), (0x30, [])]⟩, ⟨.dwarf64, 1, 2, []⟩] := by
+  intro s hs
+  simp only [List.mem_cons, List.not_mem_nil, or_false] at hs
+  rcases hs with rfl | rfl
+  · exact ⟨by decide, by decide, by decide, by decide⟩
+  · exact ⟨by decide, by decide, by decide, by decide⟩
 
 end Gimli.Props.C17
